@@ -379,7 +379,24 @@ func (e *Engine) applyPost(st, pre *State, fr *Frame, fn *ssa.Function, c *Contr
 			st.assume(inv.t)
 		}
 	}
+	for i, r := range env.results {
+		env.results[i] = substValue(r, st.subst)
+	}
 	return resultOf(fn, env.results)
+}
+
+func substValue(v Value, sub map[string]*Term) Value {
+	switch x := v.(type) {
+	case *Term:
+		return substitute(x, sub)
+	case *AggVal:
+		n := &AggVal{typ: x.typ, elems: make([]Value, len(x.elems))}
+		for i, el := range x.elems {
+			n.elems[i] = substValue(el, sub)
+		}
+		return n
+	}
+	return v
 }
 
 func (e *Engine) havocCell(st *State, cr cellRef, tag string) {
